@@ -12,6 +12,8 @@ x the forms of q the library produces (JointDistributionModel of Distributions,
   a bare Distribution)
 x objectives {ELBO, ELBO with analytic entropy, multi-sample ELBO, VR alpha in {0, .5, 2},
   CUBO n in {1, 2}, KLpq} x sample shapes [S] and [S, K]
+x construction route {JSON specification through the loader, Python constructors with
+  anonymous (id None) objects as the repository's tests build them}
 x EVERY assignment of menu values to the S*K*dim base draws (the draws are the
   environment: torch's rsample/sample of Normal, Gamma, Beta and MultivariateNormal are
   replaced by a scripted source for the duration of a case).
@@ -394,11 +396,26 @@ def shapes(tier):
     return s
 
 
+def lattice_point(tier, pair, hi, di):
+    """quick: the diagonal of the 3 x 3 hyper x data lattice; thorough: the full lattice for
+    the one-dimensional pairs, diagonal + anti-diagonal for the two-dimensional families"""
+    if tier == "quick":
+        return hi == di
+    return pair not in TWO_D or hi == di or hi + di == 2
+
+
+def api_point(tier, hi, di):
+    """lattice points at which the anonymous Python-API construction route is explored too"""
+    if tier == "quick":
+        return hi == di == 0
+    return hi == di
+
+
 def menu_size(nslots, tier):
     if tier == "thorough":
-        if 3 ** nslots <= 729:
+        if 3 ** nslots <= 243:
             return 3
-        return 2 if 2 ** nslots <= 1024 else 0
+        return 2 if 2 ** nslots <= 512 else 0
     if 3 ** nslots <= 81:
         return 3
     return 2 if 2 ** nslots <= 64 else 0
@@ -500,6 +517,80 @@ def scripted(env):
             setattr(cls, name, fn)
 
 
+# -- construction routes --------------------------------------------------------------
+
+def build_api(spec):
+    """Second construction route: the same specification built through the Python
+    constructors with anonymous objects (id None everywhere), the way the repository's own
+    tests build models.  Returns {spec id: object}."""
+    import torch
+    from torchtree.core.parameter import Parameter, TransformedParameter
+    from torchtree.distributions.distributions import Distribution
+    from torchtree.distributions.joint_distribution import JointDistributionModel
+    from torchtree.distributions.multivariate_normal import MultivariateNormal
+    from torchtree.variational.chi import CUBO
+    from torchtree.variational.kl import ELBO, KLpq
+    from torchtree.variational.renyi import VR
+
+    reg = {}
+
+    def klass(path):
+        assert path.startswith("torch.distributions.")
+        return getattr(torch.distributions, path.split(".")[-1])
+
+    def samples_of(d):
+        s = d.get("samples", 1)
+        return torch.Size(s) if isinstance(s, list) else torch.Size((s,))
+
+    def obj(d):
+        if isinstance(d, str):
+            return reg[d]
+        if isinstance(d, list):
+            return [obj(e) for e in d]
+        t = d["type"]
+        if t == "Parameter":
+            o = Parameter(None, torch.tensor(d["tensor"], dtype=torch.float64))
+        elif t == "TransformedParameter":
+            x = obj(d["x"])
+            o = TransformedParameter(None, x, klass(d["transform"])(**d.get("parameters", {})))
+        elif t == "Distribution":
+            x = obj(d["x"])
+            params = {}
+            for name, v in d["parameters"].items():
+                if isinstance(v, (int, float)) or (isinstance(v, list)):
+                    params[name] = Parameter(None, torch.tensor(v, dtype=torch.float64))
+                else:
+                    params[name] = obj(v)
+            o = Distribution(None, klass(d["distribution"]), x, params)
+        elif t == "JointDistributionModel":
+            o = JointDistributionModel(None, [obj(m) for m in d["distributions"]])
+        elif t == "MultivariateNormal":
+            x = obj(d["x"])
+            kw = {k: obj(v) for k, v in d["parameters"].items()}
+            o = MultivariateNormal(None, x, kw.pop("loc"), **kw)
+        elif t == "ELBO":
+            o = ELBO(None, obj(d["variational"]), obj(d["joint"]), samples_of(d),
+                     entropy=d.get("entropy", False))
+        elif t == "KLpq":
+            o = KLpq(None, obj(d["variational"]), obj(d["joint"]), samples_of(d))
+        elif t == "VR":
+            o = VR(None, obj(d["variational"]), obj(d["joint"]), samples_of(d), d.get("alpha", 0.0))
+        elif t == "CUBO":
+            o = CUBO(None, obj(d["variational"]), obj(d["joint"]), samples_of(d),
+                     torch.tensor(d.get("n", 2.0)))
+        else:
+            raise ValueError(t)
+        reg[d["id"]] = o
+        return o
+
+    for d in spec:
+        obj(d)
+    return reg
+
+
+ROUTES = ("json", "api")
+
+
 # -- one case ----------------------------------------------------------------------
 
 def _close(a, b, tol):
@@ -510,7 +601,7 @@ def second_assignment(assign, m):
     return [(i + 1) % m for i in assign]
 
 
-def run_assignment(cfg, oname, ospec, shape, assign, m):
+def run_assignment(cfg, oname, ospec, shape, assign, m, route="json"):
     """Build a fresh graph, invoke the objective twice; returns (bad, values, maxdev)
     where bad is a list of (check, detail)."""
     import torch
@@ -527,7 +618,7 @@ def run_assignment(cfg, oname, ospec, shape, assign, m):
         try:
             spec = cfg.spec + [dict(ospec, id="obj", joint="joint", variational=cfg.q_id,
                                     samples=shape[0] if len(shape) == 1 else list(shape))]
-            dic = tt.load(spec)
+            dic = tt.load(spec) if route == "json" else build_api(spec)
         except Exception as e:
             return [("build_raises", f"{type(e).__name__}: {e}")], values, maxdev, False
         obj = dic["obj"]
@@ -571,19 +662,25 @@ def run_assignment(cfg, oname, ospec, shape, assign, m):
                 bad.append(("raises", f"{where}: {type(e).__name__}: {str(e)[:200]}"))
                 break
             # ---- draws made during this request
-            ncomp = len(cfg.comps)
-            if len(env.log) < ncomp:
-                bad.append(("fresh", f"{where}: {len(env.log)} scripted draw requests for "
-                                     f"{ncomp} variational component(s): no fresh samples"))
+            last = {}
+            for rec_ in env.log:
+                last[rec_[0]] = rec_  # the last draw of each distribution kind is the one in effect
+            missing = [kind for kind, _, _ in cfg.comps if kind not in last]
+            if missing:
+                bad.append(("fresh", f"{where}: no scripted draw was requested for the variational "
+                                     f"component(s) {missing} ({len(env.log)} requests in all): "
+                                     f"no fresh samples"))
                 break
-            recs = env.log[-ncomp:]
+            recs = [last[kind] for kind, _, _ in cfg.comps]
             ok = True
             for (kind, width, _), (rk, rshape, rx) in zip(cfg.comps, recs):
-                if rk != kind:
-                    raise RuntimeError(f"scripted source met {rk} where {kind} was expected")
                 if list(rshape) != list(shape):
                     bad.append(("sample_shape", f"{where}: q sampled with shape {list(rshape)}, "
                                                 f"requested {list(shape)}"))
+                    ok = False
+                elif rx.numel() != N * width:
+                    bad.append(("sample_shape", f"{where}: a draw of {list(rx.shape)} for sample "
+                                                f"shape {list(shape)} and width {width}"))
                     ok = False
             if not ok:
                 break
@@ -691,21 +788,24 @@ def group_cases(tier, seed):
         for qform in qforms:
             for hi in range(3):
                 for di in range(3):
-                    if tier == "quick" and hi != di and pair in TWO_D:
-                        continue  # the 2-d families: diagonal of the 3 x 3 lattice in the quick tier
-                    for oname, ospec in objectives():
-                        for shape in shapes(tier):
-                            if oname == "ELBO-entropy" and len(shape) == 2:
-                                continue  # the flag has no meaning in the multi-sample branch
-                            out.append({"pair": pair, "qform": qform, "hyper": hi, "data": di,
-                                        "seed": seed, "oname": oname, "ospec": ospec,
-                                        "shape": shape, "tier": tier})
+                    if not lattice_point(tier, pair, hi, di):
+                        continue
+                    for route in ROUTES:
+                        if route == "api" and not api_point(tier, hi, di):
+                            continue
+                        for oname, ospec in objectives():
+                            for shape in shapes(tier):
+                                if oname == "ELBO-entropy" and len(shape) == 2:
+                                    continue  # the flag has no meaning in the multi-sample branch
+                                out.append({"pair": pair, "qform": qform, "hyper": hi, "data": di,
+                                            "seed": seed, "oname": oname, "ospec": ospec,
+                                            "shape": shape, "tier": tier, "route": route})
     return out
 
 
 def sig_of(g, check):
     return {"check": check, "objective": g["oname"], "qform": g["qform"],
-            "shape": shape_class(g["shape"])}
+            "shape": shape_class(g["shape"]), "route": g.get("route", "json")}
 
 
 def run_group(g):
@@ -724,7 +824,7 @@ def run_group(g):
     cube = []
     for assign in itertools.product(range(m), repeat=n):
         bad, values, maxdev, unscripted = run_assignment(cfg, g["oname"], g["ospec"], g["shape"],
-                                                         list(assign), m)
+                                                         list(assign), m, g.get("route", "json"))
         res["assignments"] += 1
         res["evals"] += 2
         res["draws"] += 2 * n
@@ -740,20 +840,26 @@ def run_group(g):
                 first[check] = (list(assign), detail)
         if values and all(i < 2 for i in assign):
             cube.append(values[0])
+        if res["assignments"] == min(m ** n, 5):
+            res["sample"] = {"pair": g["pair"], "qform": g["qform"], "hyper": g["hyper"],
+                             "data": g["data"], "seed": g["seed"], "oname": g["oname"],
+                             "ospec": g["ospec"], "shape": g["shape"], "tier": g["tier"],
+                             "route": g.get("route", "json"), "kind": "assignment", "assign": list(assign), "menu": m,
+                             "objective_values": values}
     for check, (assign, detail) in first.items():
         case = {k: g[k] for k in ("pair", "qform", "hyper", "data", "seed", "oname", "ospec",
                                   "shape", "tier")}
-        case.update(kind="assignment", assign=assign, menu=m)
+        case.update(kind="assignment", assign=assign, menu=m, route=g.get("route", "json"))
         res["viol"].append({"case": case, "sig": sig_of(g, check),
-                            "detail": f"{g['pair']}/{g['qform']} {g['oname']} {g['ospec']} "
-                                      f"samples={g['shape']} draws#{assign}: {check}: {detail}"})
+                            "detail": f"{g['pair']}/{g['qform']} [{g.get('route', 'json')}] {g['oname']} "
+                                      f"{g['ospec']} samples={g['shape']} draws#{assign}: {check}: {detail}"})
     if (g["oname"] == "ELBO-entropy" and cfg.normal_family and m >= 2
             and len(cube) == 2 ** n and "value" not in first and "raises" not in first):
         mean = math.fsum(cube) / len(cube)
         if not _close(mean, cfg.oracle.logZ, TOL):
             case = {k: g[k] for k in ("pair", "qform", "hyper", "data", "seed", "oname", "ospec",
                                       "shape", "tier")}
-            case.update(kind="expectation")
+            case.update(kind="expectation", route=g.get("route", "json"))
             res["viol"].append({"case": case, "sig": sig_of(g, "expectation"),
                                 "detail": f"{g['pair']}/{g['qform']} analytic-entropy ELBO, samples="
                                           f"{g['shape']}: mean over the 2^{n} two-point draws = {mean!r}, "
@@ -771,6 +877,8 @@ def self_test(seed):
     for pair, qforms in PAIRS.items():
         for hi in range(3):
             for di in range(3):
+                if not lattice_point("thorough", pair, hi, di):
+                    continue
                 o = build_config(pair, qforms[0], hi, di, seed).oracle
                 if pair == "gamma_exp_vec":
                     o.self_test([[0.4, 1.3], [2.5, 0.2]])
@@ -825,11 +933,9 @@ def run(run):
         raise RuntimeError("vacuous run: every objective value identical")
     if unscripted:
         run.notes.append(f"{unscripted} cases consumed un-intercepted torch randomness")
-    samples = []
-    for g in (groups[0], groups[len(groups) // 2], groups[-1]):
-        c = {k: g[k] for k in ("pair", "qform", "hyper", "data", "seed", "oname", "ospec", "shape")}
-        c.update(kind="assignment", assign=[0] * 1, menu=3)
-        samples.append(c)
+    allres = [r for rs in results for r in rs if r.get("sample")]
+    samples = [allres[i]["sample"] for i in sorted({0, len(allres) // 3, 2 * len(allres) // 3,
+                                                     len(allres) - 1})]
     cov = {
         "evaluations": evals,
         "distinct_nontrivial": nontrivial,
@@ -854,6 +960,7 @@ def run(run):
         "tolerance_written": TOL_WRITTEN,
         "menus": MENU,
         "pairs_and_qforms": PAIRS,
+        "construction_routes": list(ROUTES),
         "shapes": shapes(run.tier),
     }
     return run.finish(cov, assumptions=[
@@ -861,8 +968,10 @@ def run(run):
         "pair (VERIF_SEED moves the continuous values only)",
         "draws come from finite menus (normal base noise {-1, +1, 0.3}; gamma draws {0.5, 1.9, 1} x "
         "mean; beta draws {0.2, 0.9, 0.5}); the identity holds for every point of the support, so "
-        "the menu values need not be quantiles; menu size 3 while menu^slots <= 81 (729 thorough), "
-        "else 2 while <= 64 (1024), larger shapes are not explored; the quick tier visits only the diagonal of the hyper x data lattice for the 2-d families",
+        "the menu values need not be quantiles; menu size 3 while menu^slots <= 81 (243 thorough), "
+        "else 2 while <= 64 (512), larger shapes are not explored; the quick tier visits the diagonal "
+        "of the hyper x data lattice, the thorough tier the full lattice (diagonal + anti-diagonal for "
+        "the two-dimensional families)",
         "objectives are invoked as Optimizer._run does (variational parameters fire, then call); a "
         "bare repeated call without any change event returns the cached value by the CallableModel "
         "contract and is not part of the claim",
@@ -887,7 +996,8 @@ def replay(case):
     assign = list(case["assign"])
     if len(assign) != n:
         assign = (assign * n)[:n]
-    bad, values, maxdev, _ = run_assignment(cfg, g["oname"], g["ospec"], g["shape"], assign, m)
+    bad, values, maxdev, _ = run_assignment(cfg, g["oname"], g["ospec"], g["shape"], assign, m,
+                                            g.get("route", "json"))
     seen = set()
     for check, detail in bad:
         if check in seen:
